@@ -559,6 +559,8 @@ fn render_parent_child_fragment<F: Fn() -> TokenStream>(
                 Named(_) => TypeHint::Struct,
                 Unnamed(_) => TypeHint::Tuple,
             };
+            // The struct opened here is braced or parenthesized after its own members, not after the innermost ones
+            let named_fields = parent_child_field.sub_path.get(new_depth).map_or(named_fields, |x| matches!(x.0, Named(_)));
             render_child(&child_data, fields, named_fields, ctx, (&child_path, new_depth), hint)
         } else {
             fields.next();
